@@ -187,3 +187,148 @@ Proof. exact (conj ex_grammar_parses ex_skip_brute_load). Qed.
 Print Assumptions C14_source_load_base_structures_is_model.
 Print Assumptions C14_bases_with_markov_translated.
 Print Assumptions C14_bases_without_markov_translated.
+
+(* ---- translator tie of the command line / save-file glue (task T17): gen/Cli_gen.v is the
+   translation of pcfg_guesser.py (main, parse_command_line, create_save_config, load_save;
+   harness/translate_cli.py, redone on every run) over the runtime CliRt.v; argparse is the total
+   function CliModel.ap_parse from the argv token list (None = SystemExit), configparser a string
+   map, the file system / os.path / PcfgGrammar / int() the oracles of the record [env].  The
+   generated functions equal the hand-written model for EVERY argv, save file and oracle: *)
+From Coq Require Import String.
+From Pcfg Require Import CliModel CliModelProofs CliRt CliGenProofs.
+From PcfgGen Require Import Cli_gen.
+
+Theorem C14_source_parse_command_line_is_model : forall E log,
+  py_parse_command_line E {| w_pi := py_main_program_info; w_log := log |} =
+  match m_parse (e_int_of E) (e_argv E) with
+  | None => (Exc SystemExit, {| w_pi := py_main_program_info; w_log := log |})
+  | Some (b, o) => (Retn (VBool b), {| w_pi := pi_store_options o py_main_program_info; w_log := log |})
+  end.
+Proof. exact parse_command_line_eq. Qed.
+
+Theorem C14_source_load_save_is_model : forall E name w,
+  load_spec (m_load_save (e_fs E name)) w (py_load_save E (VStr name) w).
+Proof. exact load_save_eq. Qed.
+
+Theorem C14_source_create_save_config_is_model : forall E w rule sb sc,
+  d_get (lit "rule_name") (w_pi w) = Some (VStr rule) ->
+  d_get (lit "skip_brute") (w_pi w) = Some (VBool sb) ->
+  d_get (lit "skip_case") (w_pi w) = Some (VBool sc) ->
+  py_create_save_config E w = (Retn (VCfg (m_create_save_config (e_now E) rule sb sc)), w).
+Proof. exact create_save_config_eq. Qed.
+
+Theorem C14_source_main_is_model : forall E, run_main (py_main E) world0 = m_main E gen_version.
+Proof. exact main_eq. Qed.
+
+(* parse_args never returns an ill-typed namespace: the options record of the model is total *)
+Theorem C14_parse_args_typed : forall int_of argv ns, ap_parse int_of guesser_parser argv = Some ns ->
+  exists o, ns = ns_of_options o /\ options_of_ns ns = Some o.
+Proof. exact guesser_ns_typed. Qed.
+
+(* (1) on --load (true_prob_order) the grammar is built with exactly the saved rule name,
+   skip_brute and skip_case, whatever flags are typed - for every argv and every saved configuration *)
+Theorem C14_load_uses_saved_flags : forall E o c rule sb sc e log,
+  m_parse (e_int_of E) (e_argv E) = Some (true, o) -> resumes o = true ->
+  m_load_save (e_fs E (save_name E o)) = LOk c rule sb sc ->
+  run_main (py_main E) world0 = (e, log) ->
+  exists g rest, log = EGrammar g :: rest /\ no_grammar rest /\
+    gc_rule_name g = VStr rule /\ gc_skip_brute g = VBool sb /\ gc_skip_case g = VBool sc /\
+    gc_base_directory g = VStr (e_pjoin E [e_script_dir E; lit "Rules"; rule]) /\
+    gc_save_file g = VStr (save_name E o).
+Proof. exact source_load_uses_saved. Qed.
+
+(* ... and when the save file cannot be used, main stops before any grammar is built *)
+Theorem C14_load_failure_builds_nothing : forall E o,
+  m_parse (e_int_of E) (e_argv E) = Some (true, o) -> resumes o = true ->
+  match m_load_save (e_fs E (save_name E o)) with
+  | LFail => run_main (py_main E) world0 = (MDone, [])
+  | LCrash e => run_main (py_main E) world0 = (MRaise e, [])
+  | LOk _ _ _ _ => True
+  end.
+Proof. exact source_load_failure. Qed.
+
+(* what load_save accepts: the five options, both flags boolean words (getboolean) *)
+Theorem C14_load_save_checks : forall c rule sb sc, m_load_save (FCfg c) = LOk c rule sb sc ->
+  cfg_lookup k_rule_info (lit "rule_name") c = Some rule /\
+  (exists s, cfg_lookup k_rule_info (lit "skip_brute") c = Some s /\ boolean_of s = Some sb) /\
+  (exists s, cfg_lookup k_rule_info (lit "skip_case") c = Some s /\ boolean_of s = Some sc) /\
+  cfg_has_option k_rule_info (lit "uuid") c = true /\ cfg_has_option k_session_info (lit "last_updated") c = true.
+Proof. exact load_save_checks. Qed.
+
+(* (2) round trip: load_save of what create_save_config wrote (completed by main's uuid, the
+   session's last_updated and anything under guessing_info) gives back exactly the saved fields *)
+Theorem C14_save_load_round_trip : forall E w rule sb sc,
+  d_get (lit "rule_name") (w_pi w) = Some (VStr rule) ->
+  d_get (lit "skip_brute") (w_pi w) = Some (VBool sb) ->
+  d_get (lit "skip_case") (w_pi w) = Some (VBool sc) ->
+  exists cfg0, py_create_save_config E w = (Retn (VCfg cfg0), w) /\
+    forall E' name uuid stamp guessing w',
+      let saved := set_guessing guessing (cfg_set_in k_session_info (lit "last_updated") stamp
+                                            (cfg_set_in k_rule_info (lit "uuid") uuid cfg0)) in
+      e_fs E' name = FCfg saved ->
+      py_load_save E' (VStr name) w' =
+      (Retn (VCfg saved), {| w_pi := pi_store_saved rule sb sc (w_pi w'); w_log := w_log w' |}).
+Proof. exact source_save_load_round_trip. Qed.
+
+(* (3) without a restored session the typed flags are used ... *)
+Theorem C14_typed_flags_used : forall E o e log,
+  m_parse (e_int_of E) (e_argv E) = Some (true, o) -> resumes o = false ->
+  run_main (py_main E) world0 = (e, log) ->
+  exists g rest, log = EGrammar g :: rest /\ no_grammar rest /\
+    gc_rule_name g = VStr (o_rule o) /\ gc_skip_brute g = VBool (o_skip_brute o) /\
+    gc_skip_case g = VBool (o_skip_case o) /\ gc_debug g = VBool (o_debug o) /\
+    gc_save_file g = VStr (save_name E o).
+Proof. exact source_uses_typed. Qed.
+
+(* ... and a toggle (store_const, default False, const True) is True exactly when its option occurs
+   on the command line, once or several times *)
+Theorem C14_toggles_are_store_const : forall int_of argv occs o,
+  ap_occs guesser_parser argv = Some occs -> m_options int_of argv = Some o ->
+  o_load o = existsb (occ_dest_is (lit "load")) occs /\
+  o_skip_brute o = existsb (occ_dest_is (lit "skip_brute")) occs /\
+  o_skip_case o = existsb (occ_dest_is (lit "skip_case")) occs /\
+  o_debug o = existsb (occ_dest_is (lit "debug")) occs.
+Proof. exact guesser_toggles. Qed.
+
+(* a toggle token is one occurrence and leaves the reading of the rest unchanged (so typing it twice
+   gives two occurrences, hence the same value as typing it once) *)
+Theorem C14_toggle_token : forall p t o f argv, classify p t = TOpt o f None -> takes_arg o = false ->
+  str_eqb [45; 45]%N t = false ->
+  ap_occs p (t :: argv) = option_map (cons (o, None)) (ap_occs p argv).
+Proof. exact ap_occs_toggle. Qed.
+
+(* ... so that a toggle typed twice anywhere on a command line gives every toggle the value it has
+   when it is typed once *)
+Theorem C14_toggle_twice_is_once : forall p t o f a b c oa ob oc,
+  classify p t = TOpt o f None -> takes_arg o = false -> str_eqb [45; 45]%N t = false ->
+  ap_occs p a = Some oa -> ap_occs p b = Some ob -> ap_occs p c = Some oc ->
+  exists twice once,
+    ap_occs p (a ++ t :: b ++ t :: c)%list = Some twice /\ ap_occs p (a ++ t :: b ++ c)%list = Some once /\
+    forall d, existsb (occ_dest_is d) twice = existsb (occ_dest_is d) once.
+Proof. exact toggle_twice_is_once. Qed.
+
+(* non-vacuity of the toggle theorems: --skip_brute twice, once, not at all, and with a value *)
+Theorem C14_toggle_example :
+  m_options int_ascii (map lit ["--skip_brute"; "-r"; "X"; "--skip_brute"; "--all_lower"]%string) =
+  m_options int_ascii (map lit ["-r"; "X"; "--all_lower"; "--skip_brute"]%string) /\
+  option_map o_skip_brute (m_options int_ascii (map lit ["--skip_brute"; "--skip_brute"]%string)) = Some true /\
+  option_map o_skip_brute (m_options int_ascii (map lit ["--all_lower"]%string)) = Some false /\
+  m_options int_ascii (map lit ["--skip_brute=1"]%string) = None /\
+  classify guesser_parser (lit "--skip_brute") = TOpt o_skip_brute_opt (lit "--skip_brute") None.
+Proof. exact toggle_example. Qed.
+
+(* non-vacuity: --load --skip_brute -n 5 -s s1 against a session saved with rule R, skip_brute
+   False, all_lower True *)
+Theorem C14_source_cli_example :
+  m_parse (e_int_of ex_env) (e_argv ex_env) =
+    Some (true, {| o_rule := lit "Default"; o_session := lit "s1"; o_load := true; o_limit := Some 5%Z;
+                   o_skip_brute := true; o_skip_case := false; o_debug := false; o_mode := mode_tpo |}) /\
+  m_load_save (e_fs ex_env (lit "/x/s1.sav")) = LOk ex_saved (lit "R") false true.
+Proof. exact ex_hypotheses. Qed.
+
+Print Assumptions C14_source_main_is_model.
+Print Assumptions C14_load_uses_saved_flags.
+Print Assumptions C14_save_load_round_trip.
+Print Assumptions C14_typed_flags_used.
+Print Assumptions C14_toggles_are_store_const.
+Print Assumptions C14_toggle_twice_is_once.
